@@ -43,6 +43,26 @@ INVARIANT NotReplayed
 CHECK_DEADLOCK FALSE
 """
 
+POOL_CFG = """SPECIFICATION Spec
+CONSTANTS G = {%s}
+ Rounds = %d
+ EarlyPut = %s
+ PartialFill = %s
+INVARIANT Exclusive
+INVARIANT ReadsOwn
+CHECK_DEADLOCK FALSE
+"""
+
+
+def pool_model(ctx, g, rounds):
+    """spec/RequestPool.tla: the faithful pool protocol holds; both attack variants must violate ReadsOwn."""
+    ctx.tlc("RequestPool", POOL_CFG % (", ".join(str(i) for i in range(1, g + 1)), rounds, "FALSE", "FALSE"), timeout=900)
+    for name, flags in (("EarlyPut", ("TRUE", "FALSE")), ("PartialFill", ("FALSE", "TRUE"))):
+        r = ctx.tlc("RequestPool", POOL_CFG % ("1, 2", 2, *flags), timeout=300, expect_violation=True)
+        if not r.violated:
+            raise vf.Inconclusive("pool variant %s violates nothing: the pool model's invariants are vacuous" % name)
+        ctx.extra.setdefault("pool_variants", {})[name] = r.violated[0]
+
 
 def gset(n):
     return ", ".join(str(i) for i in range(1, n + 1))
@@ -70,6 +90,7 @@ def run(ctx):
             raise vf.Inconclusive("lock-removed variant %s violates nothing: the model's invariants are vacuous" % name)
         attacks[name] = r.violated[0]
     ctx.extra["attack_variants"] = attacks
+    pool_model(ctx, 2 if quick else 3, 2)
     # ---- (2) race detector ----
     ctx.build(race=True)
     ctx.build()
